@@ -9,7 +9,7 @@ from . import c06
 
 ID = "C08"
 TECHNIQUE = "CFG ordering and exit classification (K1/K2) on the commit builder's stacking refill, MRO resolution of the 2a completeness check (K7), shared presence-set provenance (K5) (ast)"
-FLOOR = 12
+FLOOR = 24
 VF = "breezy/bzr/vf_repository.py"
 GC = "breezy/bzr/groupcompress_repo.py"
 PR = "breezy/bzr/pack_repo.py"
